@@ -53,6 +53,18 @@ def run(ctx, chk):
     # ---- D2 display() returns exactly `lines` strings --------------------------------
     disp = ep('display')
     dres = display_length(ctx, eng, disp)
+    # accepted alternative idiom: the returned vector is collected element-wise from 0..lines, so its
+    # length is `lines` in every exit state (decided on the abstract value, not on the code shape)
+    fin = [(st, ret) for r in sr['results'].get(disp, []) for (st, ret) in r.finals]
+    sem = bool(fin)
+    for (st, ret) in fin:
+        ln = ret.length if isinstance(ret, CollV) and ret.kind == 'vec' else None
+        lines = get(eng, st, 'lines')
+        if not (isinstance(ln, NumV) and isinstance(lines, NumV) and eng.prove_cmp(st, 'eq', ln, NumV(lines.sym, lines.k, ln.ty)) is True):
+            sem = False
+    if sem:
+        dres = [(name, True, 'returned vector has length `lines` in all %d exit states (element-wise collect over 0..lines)' % len(fin), span) if not ok else (name, ok, detail, span)
+                for (name, ok, detail, span) in dres]
     for (name, ok, detail, span) in dres:
         chk.instance('R-LEN', short(disp), name, ok, detail=detail, span=span, what='display() is not shown to return exactly `lines` rows: ' + detail)
     chk.floor('display length clauses', len(dres), 3)
